@@ -26,11 +26,14 @@ def gen_value(rng, depth=0, conts=True):
     if k < 0.45:
         return gen_int(rng)
     if k < 0.55:
+        if rng.random() < 0.25:
+            return ('cell', rc.RC(gen.some_bits(rng, rng.choice([0, 1016, 1017, 1023])), [rc.RC(rc.u(i, 3)) for i in range(rng.choice([0, 4]))]))
         return ('cell', gen.rand_dag(rng, rng.choice([1, 3]), max_bits=60))
     if k < 0.67:
         return ('slice', rc.RC(gen.some_bits(rng, rng.choice([0, 5, 200, 1023])), [rc.RC(rc.u(i, 3)) for i in range(rng.randint(0, 4))]))
     if k < 0.74:
-        return ('builder', rc.RC(gen.some_bits(rng, 80), [rc.RC('1')] * rng.randint(0, 2)))
+        # builders of every fill level, the byte-padding boundary (1016/1017) and the full builder (1023 bits, 4 references) included
+        return ('builder', rc.RC(gen.some_bits(rng, rng.choice([0, 1, 80, 80, 1015, 1016, 1017, 1022, 1023])), [rc.RC(rc.u(i, 2)) for i in range(rng.choice([0, 0, 1, 2, 4]))]))
     if k < 0.9 and depth < 6:
         n = rng.choice([0, 1, 2, 3, 4, 4, 7, 20] + ([255] if depth == 0 and rng.random() < 0.2 else []))
         return ('tuple', [gen_value(rng, depth + 1, conts) for _ in range(n)])
